@@ -500,6 +500,9 @@ def _check_prepad_and_trim(ctx, P, fi, rule="R05.4"):
             if b["padding"] != {AX: Sym("RULE_AX"), AY: Sym("RULE_AY")} or b["fill_value"] != {AX: Sym("FILL_AX"), AY: Sym("FILL_AY")}:
                 bad = bad or "the basic pre-padding does not use the per-axis rule and fill value in force"
             faces, facedim, trim = face_parts(o.value)
+            extra = [e[0] for e in trim if e[0] not in ("isel", "copy", "transpose")]
+            if extra:
+                bad = bad or f"after the faces are re-assembled the result goes through {extra}: only the trim to the requested widths may follow"
             # final trim: compose selections on the concatenated result
             sel = {a: Sel(0, 1, N + Lin.of(2 * wmax)) if a in want_axes else Sel(0, 1, N) for a in (AX, AY)}
             try:
